@@ -26,8 +26,20 @@ def mk_sys(t):
     return UnitsSystem(space=t[0], time=t[1], quantity=t[2])
 
 
+_mk_units_calls = [0]
+
+
 def mk_units(t, dim):
-    return Units(mk_sys(t), UnitsDimensions(space=dim[0], time=dim[1], quantity=dim[2]))
+    """Units of a system and a dimension; the dimension as an object or (two calls out of three) as a dictionary whose keys are
+    written in another order each time - the order carries no meaning."""
+    _mk_units_calls[0] += 1
+    k = _mk_units_calls[0] % 6
+    if k % 3 == 0:
+        return Units(mk_sys(t), UnitsDimensions(space=dim[0], time=dim[1], quantity=dim[2]))
+    names = [("space", "time", "quantity"), ("time", "quantity", "space"), ("quantity", "space", "time"), ("time", "space", "quantity"),
+             ("quantity", "time", "space"), ("space", "quantity", "time")][k]
+    val = {"space": dim[0], "time": dim[1], "quantity": dim[2]}
+    return Units(mk_sys(t), {n: val[n] for n in names})
 
 
 def ustr(t, dim):
